@@ -164,6 +164,9 @@ class AbstractAttributeHandler(utils.ContextWeakrefMixin):
       return node
     elif isinstance(obj, (abstract.StaticMethod, abstract.ClassMethod)):
       return self.set_attribute(node, obj.method, name, value)
+    elif isinstance(obj, abstract.ParameterizedClass):
+      # `C[int].x = ...` sets the attribute on C, as it does at runtime.
+      return self.set_attribute(node, obj.base_cls, name, value)
     elif isinstance(obj, abstract.SimpleValue):
       return self._set_member(node, obj, name, value)
     elif isinstance(obj, abstract.BoundFunction):
